@@ -379,7 +379,7 @@ class Ctx(object):
             total.merge(rec)
             ntrans += len(frontier)
             nxt = []
-            for hist, r in getattr(rec, 'res_all', []):
+            for hist, r in sorted(getattr(rec, 'res_all', []), key=lambda t: (len(t[0]), case_to_text(t[0]))):
                 maxdepth = max(maxdepth, len(hist))
                 if r is None:
                     continue
